@@ -2071,17 +2071,17 @@ package exec
 //@   property C12 C13 C15
 //@   uses namefn nodeset
 //@   requires okargs(args) && $CTXSET$
-//@   requires isVSet(context.result) ==> len(vset(context.result)) == 1
 //@   ensures (err != nil) == (len(args) != 1 || !isVSet(context.result))
-//@   ensures err == nil ==> r == VBool(nlHas(langStart(vset(context.result)[0]), "http://www.w3.org/XML/1998/namespace", "lang") && langMatch(toStr(args[0]), nlVal(langStart(vset(context.result)[0]), "http://www.w3.org/XML/1998/namespace", "lang")))   @nearest-xml-lang
+//@   ensures err == nil ==> isVBool(r)
+//@   ensures err == nil && len(vset(context.result)) == 1 ==> r == VBool(nlHas(langStart(vset(context.result)[0]), "http://www.w3.org/XML/1998/namespace", "lang") && langMatch(toStr(args[0]), nlVal(langStart(vset(context.result)[0]), "http://www.w3.org/XML/1998/namespace", "lang")))   @nearest-xml-lang
 //@   loop 0
 //@     invariant 0 - 1 <= #k && #k < len(nodeSet) || (len(nodeSet) == 0 && #k == 0 - 1)
-//@     invariant #k == 0 ==> !nlHas(langStart(nodeSet[0]), "http://www.w3.org/XML/1998/namespace", "lang")
+//@     invariant forall j Int :: {nodeSet[j]} 0 <= j && j <= #k ==> !nlHas(langStart(nodeSet[j]), "http://www.w3.org/XML/1998/namespace", "lang")
 //@     decreases len(nodeSet) - #k
 //@   loop 1
-//@     invariant n != nil
-//@     invariant nlHas(n, "http://www.w3.org/XML/1998/namespace", "lang") == nlHas(langStart(nodeSet[0]), "http://www.w3.org/XML/1998/namespace", "lang")
-//@     invariant nlVal(n, "http://www.w3.org/XML/1998/namespace", "lang") == nlVal(langStart(nodeSet[0]), "http://www.w3.org/XML/1998/namespace", "lang")
+//@     invariant n != nil && 0 <= #outer + 1 && #outer + 1 < len(nodeSet)
+//@     invariant nlHas(n, "http://www.w3.org/XML/1998/namespace", "lang") == nlHas(langStart(nodeSet[#outer + 1]), "http://www.w3.org/XML/1998/namespace", "lang")
+//@     invariant nlVal(n, "http://www.w3.org/XML/1998/namespace", "lang") == nlVal(langStart(nodeSet[#outer + 1]), "http://www.w3.org/XML/1998/namespace", "lang")
 //@     decreases pos(n)
 
 //@ func boolean(context, args) (r, err)
@@ -2121,12 +2121,15 @@ package exec
 // ---------- function calls (exec/contextfn.go) ----------
 // A-FN (assumed): a function value - user supplied or builtin - is a deterministic function of the context node-set,
 // the context position and size and the argument values (fnres / fnfails), returns a well-formed XPath value when it
-// does not fail, and writes nothing that was allocated before the call.  For the builtins the frame and the
-// well-formedness are proved by their own contracts; what each builtin computes is stated by its own contract and
-// tied to its name by the obligations exec.builtinFunctions/entry[name].
+// does not fail, and writes nothing that was allocated before the call.  For the builtins this is not assumed: the
+// obligations exec.builtinFunctions/call[name/arity] prove, per table entry, that the state execFunctionCall calls
+// the function in implies the function's own precondition and that its own postcondition and frame imply the
+// checkable part of this contract; what each builtin computes is stated by its own contract and tied to its name by
+// the obligations exec.builtinFunctions/entry[name].  Only determinism (fnres/fnfails being functions) stays assumed.
 //@ extern call.exec.Function(fn, context, args) (r, err)
 //@   uses sem
-//@   requires context != nil && okargs(args)
+//@   requires context != nil && okargs(args) && context.result != nil && wf(context.result) && resok(context.result)
+//@   requires forall i Int :: {args[i]} 0 <= i && i < len(args) ==> resok(args[i])
 //@   ensures (err != nil) == old(fnfails(fn, absv(context.result), context.contextPosition, context.contextSize, absArgs(args)))
 //@   ensures err == nil ==> r != nil && wf(r) && resok(r) && absv(r) == old(fnres(fn, absv(context.result), context.contextPosition, context.contextSize, absArgs(args)))
 
